@@ -85,7 +85,7 @@ def derive_write_helpers(facts):
 def is_write_prim(t):
     if _is_base_write_prim(t):
         return True
-    return t["callee"]["path"] in WRITE_HELPERS
+    return t["callee"]["path"] in WRITE_HELPERS and not t.get("inlined_future")
 
 
 def _is_base_write_prim(t):
